@@ -601,3 +601,60 @@ Theorem hook_announce_decides (view : bytes -> token) cfg keys now ih s :
 Proof.
   unfold hook_announce. destruct (jwt_accept cfg keys now ih (view s)); split; split; congruence.
 Qed.
+
+(* ------------------------------------------------------------ fetches in flight *)
+
+(* one fetcher: at most one fetch in flight; the register holds the version of the newest COMPLETED fetch
+   (= f_ret), it never exceeds the newest version any fetch was served (f_srv), and a pending response
+   carries a version at least the register's *)
+Definition finv (s : fstate) : Prop :=
+  f_ret s = f_reg s /\ (f_reg s <= f_srv s)%nat /\ (f_srv s <= f_cur s)%nat /\
+  (f_pend s = [] \/ exists v, f_pend s = [(0%nat, v)] /\ (f_reg s <= v)%nat /\ (v <= f_srv s)%nat).
+
+Lemma finv_init v : finv (finit v).
+Proof. unfold finv, finit; cbn. repeat split; try lia. now left. Qed.
+
+Lemma finv_step s e : only_fetcher 0 e = true -> finv s ->
+  finv (fstep s e) /\ (f_reg s <= f_reg (fstep s e))%nat /\ (f_srv s <= f_srv (fstep s e))%nat /\
+  (f_ret s <= f_ret (fstep s e))%nat.
+Proof.
+  intros O (Hr & Hrs & Hsc & Hp). destruct e as [w|w|]; cbn [only_fetcher] in O.
+  - apply Nat.eqb_eq in O. subst w. cbn [fstep]. destruct Hp as [Hp|(v & Hp & Hv1 & Hv2)]; rewrite Hp; cbn [plook Nat.eqb].
+    + unfold finv; cbn. repeat split; try lia. right. exists (f_cur s). repeat split; lia.
+    + repeat split; try lia; try assumption. right. exists v. repeat split; assumption.
+  - apply Nat.eqb_eq in O. subst w. cbn [fstep]. destruct Hp as [Hp|(v & Hp & Hv1 & Hv2)]; rewrite Hp; cbn [plook Nat.eqb].
+    + repeat split; try lia; try assumption. now left.
+    + unfold finv; cbn. repeat split; try lia. now left.
+  - unfold finv; cbn. repeat split; try lia.
+    destruct Hp as [Hp|(v & Hp & Hv1 & Hv2)]; [now left|right; exists v; repeat split; assumption].
+Qed.
+
+(* EVERY schedule of serve / install / rotate events with the one fetcher the code has: at every instant the
+   register is the version of the newest completed fetch and at most the newest version served, and it never
+   goes back: an announce that reads the register at any instant between its start and its end is decided
+   under a version v with (f_ret at its start) <= v <= (f_srv at its end), and later reads see later versions *)
+Theorem serial_fetch_register s evs :
+  finv s -> forallb (only_fetcher 0) evs = true ->
+  Forall (fun s' => f_ret s' = f_reg s' /\ (f_reg s' <= f_srv s')%nat) (ftrace s evs) /\
+  nondecreasing (map f_reg (s :: ftrace s evs)) = true /\
+  nondecreasing (map f_srv (s :: ftrace s evs)) = true /\
+  nondecreasing (map f_ret (s :: ftrace s evs)) = true.
+Proof.
+  revert s. induction evs as [|e evs IH]; intros s I O; cbn [ftrace].
+  - repeat split; constructor.
+  - cbn [forallb] in O. apply andb_true_iff in O as [Oe O].
+    destruct (finv_step s e Oe I) as (I' & M1 & M2 & M3).
+    destruct (IH _ I' O) as (F & N1 & N2 & N3). split; [|split; [|split]].
+    + constructor; [|exact F]. destruct I' as (A & B & _). split; assumption.
+    + cbn [map nondecreasing] in *. rewrite N1. apply Nat.leb_le in M1. now rewrite M1.
+    + cbn [map nondecreasing] in *. rewrite N2. apply Nat.leb_le in M2. now rewrite M2.
+    + cbn [map nondecreasing] in *. rewrite N3. apply Nat.leb_le in M3. now rewrite M3.
+Qed.
+
+(* with a SECOND caller of updateKeys (e.g. a refresh on demand from HandleAnnounce) the register can go back:
+   fetch 0 is served version 0 and is slow, the issuer rotates, fetch 1 is served and installs version 1,
+   then the late response of fetch 0 overwrites it with version 0 - a withdrawn key is trusted again *)
+Theorem two_fetchers_register_goes_back :
+  exists evs, nondecreasing (map f_reg (finit 0 :: ftrace (finit 0) evs)) = false /\
+              map f_reg (ftrace (finit 0) evs) = [0; 0; 0; 1; 0]%nat.
+Proof. exists [FBegin 0; FRotate; FBegin 1; FEnd 1; FEnd 0]. split; reflexivity. Qed.
